@@ -1,4 +1,5 @@
 import OpcuaModel.Model.ConnLts
+import OpcuaModel.Model.ConnLtsLemmas
 /-
   C25 — connection state follows the documented lifecycle under faults.
 
@@ -12,57 +13,6 @@ namespace Opcua.Props.C25
 open Opcua.ConnLts
 set_option linter.unusedSimpArgs false
 
-macro "close_inv" : tactic =>
-  `(tactic| (simp only [Good, monTable, St.clRep, Bool.and_eq_true, Bool.or_eq_true, beq_iff_eq, bne_iff_ne,
-      Bool.not_eq_true', Bool.not_eq_eq_eq_not, Bool.not_true] at * ; grind))
-
-theorem good_init (a h : Bool) : Good (init a h) = true := by
-  cases a <;> cases h <;> decide
-
-theorem good_tau (s s' : St) (hi : Good s = true) (h : s' ∈ tau s) : Good s' = true := by
-  rcases s with ⟨upc, mpc, cl, ca, sess, last, auto, hooks⟩
-  simp only [tau, List.mem_append] at h
-  rcases h with ((hA | hB) | hC) | hD
-  · cases hooks <;> simp at hA
-    cases mpc <;> simp [monHidden] at hA
-    · rcases hA with rfl | rfl | rfl | rfl | rfl | rfl <;> close_inv
-    · rcases hA with ⟨hc, rfl⟩ ; close_inv
-    · subst hA; close_inv
-  · simp at hB
-    rcases hB with ⟨⟨hc, hn⟩, rfl⟩
-    close_inv
-  · cases upc <;> simp at hC
-    · rcases hC with rfl | rfl <;> close_inv
-    · rcases hC with rfl | rfl <;> close_inv
-  · cases mpc <;> (try (rename_i a; cases a)) <;> cases sess <;> cases ca <;> cases auto <;> simp at hD <;>
-      (first | (rcases hD with rfl | rfl | rfl) | (rcases hD with rfl | rfl) | (subst hD)) <;> close_inv
-
-theorem good_obs (s s' : St) (e : Ev) (hi : Good s = true) (h : s' ∈ obs s e) : Good s' = true := by
-  rcases s with ⟨upc, mpc, cl, ca, sess, last, auto, hooks⟩
-  simp only [obs, List.mem_append] at h
-  rcases h with hA | hB
-  · cases hooks <;> simp at hA
-    cases mpc <;> cases e <;> simp at hA <;>
-      (first | (rcases hA with ⟨_, rfl⟩) | (subst hA)) <;> close_inv
-  · cases e with
-    | uConnect => simp at hB; rcases hB with ⟨rfl, rfl⟩; close_inv
-    | uConnectOk => simp at hB; rcases hB with ⟨rfl, rfl⟩; close_inv
-    | uConnectErr => simp at hB; rcases hB with ⟨h1 | h1, rfl⟩ <;> subst h1 <;> close_inv
-    | uClose => simp at hB; rcases hB with ⟨⟨rfl, rfl⟩, rfl⟩; close_inv
-    | uCloseEnd => simp at hB; rcases hB with ⟨⟨rfl, rfl⟩, rfl⟩; close_inv
-    | dial =>
-      simp at hB
-      rcases hB with ⟨rfl, rfl⟩ | ⟨⟨rfl, rfl⟩, rfl⟩ <;> close_inv
-    | mError c => simp at hB
-    | mAction a => simp at hB
-    | mDone => simp at hB
-    | st x =>
-      simp only [List.mem_append] at hB
-      rcases hB with (hU | hC) | hM
-      · cases upc <;> cases x <;> simp at hU <;> subst hU <;> close_inv
-      · simp at hC; rcases hC with ⟨⟨rfl, rfl⟩, rfl⟩; close_inv
-      · cases mpc <;> (try (rename_i a; cases a)) <;> cases x <;> simp at hM <;> subst hM <;> close_inv
-
 /-- INVARIANT: every reachable state is `Good` (program points vs. last reported state) -/
 theorem C25_invariant {a h : Bool} {s : St} (hr : Reach a h s) : Good s = true := by
   induction hr with
@@ -72,14 +22,14 @@ theorem C25_invariant {a h : Bool} {s : St} (hr : Reach a h s) : Good s = true :
 
 macro "close_doc" : tactic =>
   `(tactic| (simp only [Good, monTable, St.clRep, doc, Bool.and_eq_true, Bool.or_eq_true, beq_iff_eq, bne_iff_ne,
-      Bool.not_eq_true', Bool.not_eq_eq_eq_not, Bool.not_true] at * ; grind))
+      Bool.not_eq_true', Bool.not_eq_eq_eq_not, Bool.not_true] at *) <;> grind)
 
-/-- every state the client reports follows the documented automaton `doc`
-    (connstate.go; stuttering allowed) from the previously reported state —
-    with ONE exception: after the user's `Close` has reported `Closed`, the
-    monitor goroutine may still report a state out of `Closed`. -/
+/-- C25 first clause, FULL STRENGTH: under every fault sequence, every
+    environment behaviour and every interleaving with `Connect` / `Close`, each
+    state the client reports is a documented successor (connstate.go,
+    stuttering allowed) of the previously reported one. -/
 theorem C25_transitions {a h : Bool} {s s' : St} {x : ConnState} (hr : Reach a h s) (hs : s' ∈ obs s (.st x)) :
-    doc s.last x = true ∨ (s.clRep = true ∧ s.last = .closed) := by
+    doc s.last x = true := by
   have hi := C25_invariant hr
   rcases s with ⟨upc, mpc, cl, ca, sess, last, auto, hooks⟩
   simp only [obs, List.mem_append] at hs
@@ -87,19 +37,28 @@ theorem C25_transitions {a h : Bool} {s s' : St} {x : ConnState} (hr : Reach a h
   · cases hooks <;> cases mpc <;> simp_all
   · rcases hB with (hU | hC) | hM
     · cases upc <;> cases x <;> simp at hU <;> subst hU <;> close_doc
-    · simp at hC; rcases hC with ⟨⟨rfl, rfl⟩, rfl⟩; cases last <;> simp [doc]
+    · simp at hC; rcases hC with ⟨⟨⟨rfl, rfl⟩, rfl⟩, rfl⟩; cases last <;> simp [doc]
     · cases mpc with
-      | act b => cases b <;> cases x <;> simp at hM <;> subst hM <;> cases last <;> close_doc
-      | _ => cases x <;> simp at hM <;> subst hM <;> cases last <;> close_doc
+      | act b => cases b <;> cases x <;> simp at hM <;> (first | (rcases hM with ⟨rfl, rfl⟩) | subst hM) <;>
+                   cases last <;> close_doc
+      | _ => cases x <;> simp at hM <;> (first | (rcases hM with ⟨rfl, rfl⟩) | subst hM) <;> cases last <;> close_doc
 
-/-- PARTIAL form of the property's first clause: as long as `Close` has not
-    reported `Closed`, under every fault sequence and interleaving only
-    documented transitions are reported. -/
-theorem C25_transitions_partial {a h : Bool} {s s' : St} {x : ConnState} (hr : Reach a h s)
-    (hs : s' ∈ obs s (.st x)) (hc : s.clRep = false) : doc s.last x = true := by
-  rcases C25_transitions hr hs with h1 | ⟨h2, _⟩
-  · exact h1
-  · simp [hc] at h2
+/-- once `Close` has cancelled the monitor context (which it does before it
+    reports `Closed`), the only state that can still be reported is `Closed` -/
+theorem C25_only_closed_after_close {a h : Bool} {s s' : St} {x : ConnState} (hr : Reach a h s)
+    (hc : s.cancelled = true) (hs : s' ∈ obs s (.st x)) : x = .closed := by
+  have hi := C25_invariant hr
+  rcases s with ⟨upc, mpc, cl, ca, sess, last, auto, hooks⟩
+  simp only at hc; subst hc
+  simp only [obs, List.mem_append] at hs
+  rcases hs with hA | hB
+  · cases hooks <;> cases mpc <;> simp_all
+  · rcases hB with (hU | hC) | hM
+    · cases upc <;> cases x <;> simp at hU <;> subst hU <;> close_inv
+    · simp at hC; exact hC.1.2
+    · cases mpc with
+      | act b => cases b <;> cases x <;> simp at hM <;> rfl
+      | _ => cases x <;> simp at hM <;> rfl
 
 /-- after `Close` (monitor context cancelled) no TCP connect attempt is made any more -/
 theorem C25_no_dial_after_close {a h : Bool} {s : St} (hr : Reach a h s) (hc : s.cancelled = true) :
@@ -133,6 +92,7 @@ theorem C25_monitor_exits {a h : Bool} {s s' : St} (hr : Reach a h s) (hc : s.ca
       | restore1 => cases sess <;> simp at hD <;> (first | (rcases hD with rfl | rfl | rfl) | subst hD) <;> simp [exitRank]
       | recreate1 => simp at hD; rcases hD with rfl | rfl | rfl <;> simp [exitRank]
       | dialed => simp at hD; rcases hD with rfl | rfl <;> simp [exitRank]
+      | wait => simp at hD; rcases hD with rfl | rfl <;> simp [exitRank]
       | _ => simp at hD <;> (try subst hD) <;> simp [exitRank]
   · simp only [obs, List.mem_append] at h
     rcases h with hA | hB
@@ -233,24 +193,22 @@ theorem C25_happy_is_step (s : St) (h : reconnecting s = true) (hc : s.cancelled
             · right; exact ⟨.mDone, by simp [happy, obs]⟩
   | _ => simp [reconnecting] at h
 
-/-- FINDING C25.state-after-close: the trace "connection lost → monitor about
-    to recreate the channel → user calls Close (Closed reported, Close returns)
-    → monitor reports Reconnecting → monitor reports Closed" is a path of the
-    model, and Closed → Reconnecting is not a documented transition -/
-theorem C25_finding_state_after_close :
+/-- the witness traces of the repaired defect C25.state-after-close (a state
+    reported out of `Closed` by the monitor after `Close` returned) are no
+    paths of the model any more; what the repaired client does instead is -/
+theorem C25_state_after_close_rejected :
     accepts true true [.uConnect, .st .connecting, .dial, .st .connected, .uConnectOk,
       .st .disconnected, .mError .eof, .mAction .createSecureChannel,
-      .uClose, .st .closed, .uCloseEnd, .st .reconnecting, .st .closed] = true ∧
-    doc .closed .reconnecting = false := by
-  decide +kernel
-
-/-- the same with `Connected` reported after `Closed` (Close while the monitor
-    is about to restore the subscriptions) -/
-theorem C25_finding_connected_after_close :
+      .uClose, .st .closed, .uCloseEnd, .st .reconnecting, .st .closed] = false ∧
     accepts true true [.uConnect, .st .connecting, .dial, .st .connected, .uConnectOk,
       .st .disconnected, .mError .badSubscription, .mAction .transferSubscriptions, .mAction .restoreSubscriptions,
-      .uClose, .st .closed, .uCloseEnd, .st .connected, .mDone, .st .closed] = true ∧
-    doc .closed .connected = false := by
+      .uClose, .st .closed, .uCloseEnd, .st .connected, .mDone, .st .closed] = false ∧
+    accepts true true [.uConnect, .st .connecting, .dial, .st .connected, .uConnectOk,
+      .st .disconnected, .mError .eof, .mAction .createSecureChannel,
+      .uClose, .st .closed, .uCloseEnd, .st .closed] = true ∧
+    accepts true true [.uConnect, .st .connecting, .dial, .st .connected, .uConnectOk,
+      .st .disconnected, .mError .badSubscription, .mAction .transferSubscriptions, .mAction .restoreSubscriptions,
+      .uClose, .st .closed, .uCloseEnd, .mDone, .st .closed] = true := by
   decide +kernel
 
 /-- non-vacuity: the traces of a cut connection, of an outage with dial
